@@ -3,6 +3,7 @@
   Signature verification is modelled as: the accounts that signed are exactly the signers the transaction requires.
 -/
 import SettlusModel.Proofs.OracleAuth
+import SettlusModel.Query
 namespace Settlus.C03
 open Settlus
 
@@ -193,5 +194,13 @@ theorem stranger_changes_nothing (H : Str → Str) (a : AState) (tx : Tx) (k : S
     rcases hauth with h | ⟨_, f, hf, hfs⟩
     · exact hop h
     · exact hfe f hf hfs
+
+/-- **the FeederDelegation query names the one account, besides the operator, that the admission check lets vote for a validator** -/
+theorem feeder_query_is_the_authorised_account (s : State) (f : Acct) (v : String) (i : Nat) (val : Val)
+    (hv : decodeVal v = some i) (hval : getVal s.vals i = some val) (hb : val.bonded = true) :
+    validateFeeder s f v = true ↔ (f = opAcc i ∨ qFeeder s v = some f) := by
+  unfold validateFeeder qFeeder
+  simp only [hv, hval, hb, Bool.true_and, Option.map_some, Bool.or_eq_true, beq_iff_eq, Option.some.injEq]
+
 
 end Settlus.C03
